@@ -203,7 +203,7 @@ pub fn translate(text: &str) -> Option<Prog> {
                 };
                 match k {
                     "bits" => b.bits = Some(const_usize(v)?),
-                    "addr" => b.addr = Some(const_i64(v)?),
+                    "addr" => b.addr = Some(const_i64(v)? as i128),
                     "size" => b.size = Some(const_usize(v)?),
                     "outp" => b.outp = Some(const_usize(v)?),
                     "labelalign" => b.labelalign = Some(const_usize(v)?),
